@@ -7,7 +7,8 @@ OBLIGATIONS = ['Yalafi.C14_mapMatch_word', 'Yalafi.C14_assemble_shift', 'Yalafi.
                # position arithmetic of the reports (Model/Reports.lean, correspondence: corr_reports.py)
                'Yalafi.C14_linecol_roundtrip', 'Yalafi.C14_formats_agree', 'Yalafi.C14_jsonPriv_nat', 'Yalafi.C14_html_agrees',
                'Yalafi.C14_html_end_agrees', 'Yalafi.C14_xmlb_bytes', 'Yalafi.C14_xmlb_bytes_end', 'Yalafi.C14_translate_numbers',
-               'Yalafi.C14_translate_numbers_none']
+               'Yalafi.C14_translate_numbers_none',
+               'Yalafi.C14_shell_assembly', 'Yalafi.C14_line_column_unique', 'Yalafi.C14_run_reported', 'Yalafi.C14_flagged_word_group_e2e', 'Yalafi.C14_copied_run_group', 'Yalafi.C14_copied_run_contiguous', 'Yalafi.C14_copied_run_footnote', 'Yalafi.C14_flagged_word_e2e', 'Yalafi.C14_sorted_e2e', 'Yalafi.C14_runs_sorted', 'Yalafi.C14_flagged_word_e2e_current', 'Yalafi.C14_flagged_word_example_current', 'Yalafi.C14_flagged_word_example', 'Yalafi.C14_flagged_word_example_eval', 'Yalafi.C14_sorted_example_eval', 'Yalafi.C14_flagged_word_group_e2e_current', 'Yalafi.C14_flagged_word_group_example_current', 'Yalafi.C14_flagged_word_group_example_eval']
 
 ONLY = {'c_group', 'c_unknown', 'c_vanish', 'c_ref', 'c_inline_math', 'c_cite', 'c_footnote', 'c_itemize', 'c_env_unknown',
         'c_foreign', 'c_special', 'c_heading'}
